@@ -269,6 +269,16 @@ class ndarray(object):
     def copy(self, order=None):
         return ndarray.from_fn(self.snapshot(), self._shape, self.kind, self.elem)
 
+    def __deepcopy__(self, memo):
+        # NumPy: copy.deepcopy / copy.copy of an ndarray (a view included) give a fresh array that owns its data
+        r = self.copy()
+        r.buf.tags.update({k: v for k, v in self.buf.tags.items() if k == "order"} if self.imap is None else {})
+        memo[id(self)] = r
+        return r
+
+    def __copy__(self):
+        return self.copy()
+
     def astype(self, dt, copy=True):
         return _cast(self, _kind_of_spec(dt), True)
 
@@ -374,10 +384,30 @@ class ndarray(object):
 
     # -- in-place ---------------------------------------------------------
     def sort(self, axis=-1, kind=None, order=None):
-        if self.ndim != 1 or not self.is_whole():
-            raise OutOfSubset("in-place sort of a view / N-d array")
-        s = sort(self)
-        self.buf.fn = s.buf.fn
+        if self.ndim != 1:
+            raise OutOfSubset("in-place sort of an N-d array")
+        if self.is_whole():
+            s = sort(self)
+            self.buf.fn = s.buf.fn
+            return
+        # in-place sort THROUGH a 1-D affine view (view[k] == buf[off + stride*k]): NumPy writes the sorted values back
+        # into the base buffer at exactly the positions the view visits; every other position of the buffer, and hence
+        # every other array sharing it, keeps its value.
+        aff = _AFFINE.get(id(self))
+        if aff is None or aff[0] is not self:
+            raise OutOfSubset("in-place sort of a non-affine view")
+        _, off, stride = aff
+        srt = sort(self).snapshot()          # sorted content of the view, by view position
+        old = self.buf.fn
+        cnt = zint(self._shape[0])
+        st = builtins.abs(stride)
+
+        def fn(w):
+            w = zint(w)
+            d = (w - off) if stride > 0 else (off - w)
+            visited = z3.And(d >= 0, d % st == 0, d / st < cnt)
+            return z3.If(visited, srt(d / st), old(w))
+        self.buf.fn = fn
 
     # -- elementwise ------------------------------------------------------
     def __eq__(self, o): return _elementwise2(self, o, "eq")
